@@ -3,7 +3,7 @@ import os
 import vlib, e2e
 from vlib import hx, unhx, case_line, show
 
-THEOREMS = ["C08_storage_source", "C08_image_source", "C08_network", "C08_service_names", "C08_tables_set", "C08_sorted", "C08_names_along_the_run", "C08_volume_creates", "C08_network_creates", "C08_lower_priority_first"]
+THEOREMS = ["C08_storage_source", "C08_image_source", "C08_network", "C08_service_names", "C08_tables_set", "C08_sorted", "C08_names_along_the_run", "C08_volume_creates", "C08_network_creates", "C08_lower_priority_first", "C08_priority_table", "C08_referenced_types_first"]
 
 SUFFIX = {"container": "", "volume": "-volume", "network": "-network", "image": "-image", "build": "-build", "pod": "-pod", "kube": ""}
 SECTION = {"container": "Container", "volume": "Volume", "network": "Network", "image": "Image", "build": "Build", "pod": "Pod", "kube": "Kube"}
@@ -227,6 +227,12 @@ def run(ctx):
             ctx.evaluations += 1
             ctx.count("e2e_sets")
             check_set(ctx, s, recs, "e2e")
+        # the same with the referring files in an earlier search directory than the files they refer to (and the other way round)
+        import e2e_refs
+        for b in e2e_refs.failures(e2e_refs.run(box, "c08")):
+            ctx.failures.append({"set": sorted({**e2e_refs.REFERRERS, **e2e_refs.REFERENCED}.items()), "what": b, "class": None})
+        ctx.evaluations += 2
+        ctx.count("e2e_reference_orders", 2)
     ctx.samples = [{"set": [(u.fname, u.text()) for u in s]} for s in sets[:2]]
     ctx.oblig("direct oracle: every reference to an existing, converting unit uses its actual object name and adds Requires=/After= on its actual service; a missing target fails only the referrer, naming the file",
               not ctx.failures, "%d failures" % len(ctx.failures))
